@@ -53,6 +53,7 @@ type piece struct {
 	lit  string
 	t    string
 	fmtc byte
+	n    int // pTok only: fixed length known to the engine (0 = not fixed)
 }
 
 type symStr struct {
@@ -589,8 +590,8 @@ func spell(idx, L int, clean bool, used map[string]bool) string {
 	if L <= 0 {
 		return ""
 	}
-	if L > 64 {
-		L = 64
+	if L > 1<<16 {
+		L = 1 << 16
 	}
 	alphabet := "abcdefghijklmnopqrstuvwxyz"
 	for try := 0; try < 26*26; try++ {
@@ -1164,10 +1165,19 @@ func pieceLenTerm(x piece) (int64, string) {
 	case pLit:
 		return int64(len(x.lit)), ""
 	case pTok:
+		if x.n > 0 {
+			return int64(x.n), ""
+		}
 		return 0, "(slen " + x.t + ")"
 	case pItoa:
+		if x.n > 0 {
+			return int64(x.n), ""
+		}
 		return 0, itoaLen(x.t)
 	case pUtoa:
+		if x.n > 0 {
+			return int64(x.n), ""
+		}
 		return 0, utoaLen(x.t)
 	case pFtoa:
 		return 0, "(ftoalen " + x.t + " " + bvConst(int64(x.fmtc), 8) + ")"
@@ -1495,6 +1505,11 @@ func concreteLen(p []piece) (int, bool) {
 			n += len(x.lit)
 		case pByte:
 			n++
+		case pTok, pItoa, pUtoa:
+			if x.n <= 0 {
+				return 0, false
+			}
+			n += x.n
 		default:
 			return 0, false
 		}
@@ -1517,6 +1532,12 @@ func ropeIndex(r symStr, i int) value {
 				return symBV{x.t, 8}
 			}
 			off++
+		case pTok, pItoa, pUtoa:
+			if x.n > 0 && i >= off+x.n {
+				off += x.n
+				continue
+			}
+			panic(abortPath{why: "index into opaque string piece", kind: "unsupported"})
 		default:
 			panic(abortPath{why: "index into opaque string piece", kind: "unsupported"})
 		}
@@ -1531,11 +1552,13 @@ func ropeSlice(r symStr, lo, hi int, fromEnd bool) symStr {
 	off := 0
 	for idx, x := range r.p {
 		var n int
-		switch x.k {
-		case pLit:
+		switch {
+		case x.k == pLit:
 			n = len(x.lit)
-		case pByte:
+		case x.k == pByte:
 			n = 1
+		case (x.k == pTok || x.k == pItoa || x.k == pUtoa) && x.n > 0:
+			n = x.n
 		default:
 			// opaque piece: allowed only if the slice takes everything from here on and lo <= off
 			if off >= lo && hi < 0 {
@@ -1559,9 +1582,15 @@ func ropeSlice(r symStr, lo, hi int, fromEnd bool) symStr {
 			b = e
 		}
 		if a < b {
-			if x.k == pLit {
+			switch x.k {
+			case pLit:
 				out = append(out, piece{k: pLit, lit: x.lit[a-s : b-s]})
-			} else {
+			case pTok, pItoa, pUtoa:
+				if a != s || b != e {
+					panic(abortPath{why: "slice cuts through an opaque fixed-length piece", kind: "unsupported"})
+				}
+				out = append(out, x)
+			default:
 				out = append(out, x)
 			}
 		}
